@@ -776,6 +776,9 @@ fn gen_fix(tmpl: &str, lang: SupportLang, nm: &NodeMatch<StrDoc<SupportLang>>) -
 }
 
 pub fn oracle(ctx: &Ctx, rng: &mut Rng, o: &mut Out) {
+  // accepted rules with literal expected replacements: variables captured in every place a variable can be
+  // captured, transformations chained in every name order (the replacement is C07's subject)
+  crate::units::checkvar::c12_fix_witnesses(o);
   let indents: &[usize] = if ctx.thorough { &[0, 1, 2, 3, 4, 5, 6, 7, 8, 9, 10, 11, 12] } else { &[0, 1, 2, 4, 7, 12] };
   let reps = if ctx.thorough { 10 } else { 2 };
   let (mut n_self, mut n_self_outside, mut n_shift, mut n_verb, mut n_long) = (0usize, 0usize, 0usize, 0usize, 0usize);
